@@ -163,6 +163,12 @@ class Interp(ExprMixin):
             return self.builtin_models[fn](self, args, kwargs, node)
         if inspect.isclass(fn) and issubclass(fn, BaseException):
             return SExc(fn, tuple(args))
+        try:
+            model = self.reg.external_objects.get(fn)
+        except TypeError:
+            model = None
+        if model is not None:
+            return model(self, args, kwargs, node)
         q = qual_of(fn)
         if q is not None:
             if q in self.reg.real_to_ctor:
@@ -369,15 +375,21 @@ class Interp(ExprMixin):
             return None
         if name == "index":
             t = lst.elem.unwrap(args[0], self.ctx)
-            j = self.ctx.fresh("idx", z3.IntSort())
             k = self.ctx.fresh("idxk", z3.IntSort())
             found = z3.Exists([k], z3.And(0 <= k, k < lst.len, lst.arr[k] == t))
             if not self.ctx.branch(found):
                 self.raise_py(ValueError, node)
+            j = self.list_index_term(lst, t)
             self.ctx.assume(z3.And(0 <= j, j < lst.len, lst.arr[j] == t,
                                    z3.ForAll([k], z3.Implies(z3.And(0 <= k, k < j), lst.arr[k] != t))))
             return SInt(j)
         raise Unsupported(f"list.{name} on a symbolic list")
+
+    def list_index_term(self, lst, t):
+        """list.index as a term: an uninterpreted function of (contents, length, item), so that two calls agree."""
+        from .opaque import ufun
+        f = ufun("idx!" + lst.elem.name, z3.ArraySort(z3.IntSort(), lst.elem.sort()), z3.IntSort(), lst.elem.sort(), z3.IntSort())
+        return f(lst.arr, lst.len, t)
 
     def dict_method(self, d, name, args, kwargs, node):
         if name == "items":
